@@ -3,6 +3,8 @@
 //
 //   rd_driver dump <list.txt> <out.ndjson>      one {"e":"RD","file":name,"rd":dump} per listed file
 //   rd_driver render <list.txt> <out.ndjson>    additionally calls every string() renderer (outcome only)
+//   rd_driver dump2 <list.txt> <out.ndjson>     files 2k and 2k+1 are read by two readers operated alternately on one
+//                                               thread (one read_block() each in turn); one RD event per file
 #include "common.h"
 #include "records.h"
 #include <chrono>
@@ -78,12 +80,28 @@ static json kept_dump(const std::string& bytes)
 
 int main(int argc, char** argv)
 {
-    if (argc != 4) { fprintf(stderr, "usage: rd_driver dump|render <list> <out>\n"); return 2; }
+    if (argc != 4) { fprintf(stderr, "usage: rd_driver dump|dump2|render|safety <list> <out>\n"); return 2; }
     std::string mode = argv[1];
     vh::trace().open(argv[3]);
     vh::install_crash_handlers();
     std::ifstream in(argv[2]);
     std::string path;
+    if (mode == "dump2") {
+        std::string p1, p2;
+        while (std::getline(in, p1) && std::getline(in, p2)) {
+            if (p1.empty() || p2.empty()) continue;
+            vr::ReaderSession a(vh::read_file(p1)), b(vh::read_file(p2));
+            vh::set_context(json{{"files", {p1, p2}}});
+            a.open(); b.open();
+            bool ma = true, mb = true;
+            while (ma || mb) { if (ma) ma = a.step(); if (mb) mb = b.step(); }
+            vh::trace().emit({{"e", "RD"}, {"file", p1.substr(p1.find_last_of('/') + 1)}, {"rd", a.out}});
+            vh::trace().emit({{"e", "RD"}, {"file", p2.substr(p2.find_last_of('/') + 1)}, {"rd", b.out}});
+        }
+        vh::trace().emit({{"e", "END"}});
+        vh::trace().close();
+        return 0;
+    }
     while (std::getline(in, path)) {
         if (path.empty()) continue;
         std::string bytes = vh::read_file(path);
